@@ -138,7 +138,7 @@ PROPS = {
     "C19": {
         "theorems": {**thms(P + "C19", ["C19_counter_bits", "C19_injective", "C19_netid_embedded", "C19_prefix"]),
                      **thms(P + "C19Alloc", ["inv_step", "C19_never_twice"])},
-        "ties": thms(T + "Keys", ["tie_maxID", "tie_maSizes", "tie_maxNetIDs", "tie_intervals"]),
+        "ties": thms(T + "Keys", ["tie_maxID", "tie_maSizes", "tie_maxNetIDs", "tie_intervals", "tie_reservation_atomic"]),
         "engines": ["eui", "keygen"],
         "assumptions": ["one reservation (AllocateKeys) is atomic: it runs under the storage mutex inside one SQLite transaction; a crash inside it is a rollback (before commit) or a lost block (after commit)",
                         "one process per database file"],
